@@ -13,8 +13,8 @@ import (
 func init() { register("C18", c18) }
 
 type nameFuncs struct {
-	titles  []*types.Func               // func(language.Tag) string
-	values  []*types.Func               // func(T, language.Tag) string
+	titles  []*types.Func                // func(language.Tag) string
+	values  []*types.Func                // func(T, language.Tag) string
 	byType  map[*types.Named]*types.Func // value function per enum type
 	english facts.Value
 	japan   facts.Value
